@@ -6,7 +6,7 @@
    Statements only; proofs in Proofs/ConcurrencyP.v.  The thread runtime (rayon, TBB, the hardware
    memory model) is trusted, not modelled; it is exercised by tools/props/C08.py. *)
 From Coq Require Import NArith List Bool.
-From V Require Import Base.Res Model.Concurrency Proofs.ConcurrencyP.
+From V Require Import Base.Res Spec.Tree Model.Platform Model.RsWide Model.RsHasher Model.Concurrency Model.RsWideSched Model.RsHasherSched Proofs.ConcurrencyP Proofs.WideSchedP.
 Import ListNotations.
 Open Scope N_scope.
 
@@ -31,6 +31,39 @@ Proof. exact split_node_schedule_independent. Qed.
 Theorem C08_serial_is_a_schedule : forall (l r : list wr), Interleave l r (l ++ r) /\ Interleave l r (r ++ l).
 Proof. intros l r. split; [apply interleave_left_first|apply interleave_right_first]. Qed.
 
+(* the whole recursion: compress_subtree_wide::<J> with ANY schedule tree (an arbitrary
+   interleaving of the two halves' writes at every split node, recursively) returns exactly what
+   the serial recursion returns - value, panic code or fuel - for every platform whose degree
+   fits its arrays, every input, key, counter, flags and capacity *)
+Theorem C08_wide_schedule_independent : forall p, p_degree p <= p_max_degree p ->
+  forall fuel s input key ctr flags cap,
+  compress_subtree_wide_sched fuel p s input key ctr flags cap = compress_subtree_wide fuel p input key ctr flags cap.
+Proof. exact wide_sched_eq. Qed.
+
+Theorem C08_to_parent_node_schedule_independent : forall p, p_degree p <= p_max_degree p ->
+  forall s input key ctr flags,
+  compress_subtree_to_parent_node_sched p s input key ctr flags = compress_subtree_to_parent_node p input key ctr flags.
+Proof. exact to_parent_node_sched_eq. Qed.
+
+Theorem C08_hash_all_at_once_schedule_independent : forall p, p_degree p <= p_max_degree p ->
+  forall s input key flags,
+  hash_all_at_once_sched p s input key flags = hash_all_at_once p input key flags.
+Proof. exact hash_all_at_once_sched_eq. Qed.
+
+(* Hasher::update_with_join::<J> (update_rayon, update_mmap_rayon, scripted join): one update under
+   any family of schedule trees is Hasher::update; so is any history of such updates *)
+Theorem C08_hasher_update_schedule_independent : forall p, p_degree p <= p_max_degree p ->
+  forall sch h input, hasher_update_sched p sch h input = hasher_update p h input.
+Proof. exact hasher_update_sched_eq. Qed.
+
+Theorem C08_update_history_schedule_independent : forall p, p_degree p <= p_max_degree p ->
+  forall pieces h, updates_sched p h pieces = updates_serial p h (map snd pieces).
+Proof. exact updates_sched_eq. Qed.
+
+(* the schedules quantified over are ALL interleavings: every interleaving is a weave, every weave an interleaving *)
+Theorem C08_weave_complete : forall (l r m : list wr), Interleave l r m <-> exists order, m = weave order l r.
+Proof. intros l r m. split; [apply interleave_is_weave|intros [o ->]; apply weave_interleave]. Qed.
+
 Example C08_nonvacuous :
   let l := [[1]; [2]] in let r := [[3]] in
   split_node 8 2 l r [(2%nat, [3]); (0%nat, [1]); (1%nat, [2])] = [[1]; [2]; [3]] /\
@@ -41,3 +74,9 @@ Print Assumptions C08_halves_disjoint.
 Print Assumptions C08_interleave_irrelevant.
 Print Assumptions C08_split_node_schedule_independent.
 Print Assumptions C08_serial_is_a_schedule.
+Print Assumptions C08_wide_schedule_independent.
+Print Assumptions C08_to_parent_node_schedule_independent.
+Print Assumptions C08_hash_all_at_once_schedule_independent.
+Print Assumptions C08_weave_complete.
+Print Assumptions C08_hasher_update_schedule_independent.
+Print Assumptions C08_update_history_schedule_independent.
